@@ -199,6 +199,9 @@ class World:
                     await cur.release
                 hcode, hopts, hpayload = script_response[:3]
                 if len(script_response) > 3 and script_response[3]:
+                    if script_response[3].startswith("ret:"):
+                        # the handler returns something that is not a message
+                        return {"ret:None": None, "ret:str": "no message", "ret:int": 205}[script_response[3]]
                     raise world.exception_of(script_response[3])
                 from aiocoap import Message
                 from aiocoap.numbers.optionnumbers import OptionNumber
